@@ -271,6 +271,23 @@ class Contract:
         return ret
 
 
+class UseMap:
+    """callee contracts of the function under check: several contracts may share a qualified name (overloads, template
+    instantiations) and are told apart by their signature filter"""
+    def __init__(self, contracts):
+        self.by = {}
+        for c in contracts: self.by.setdefault(c.qname, []).append(c)
+
+    def lookup(self, qn, d, eng):
+        for c in self.by.get(qn, []):
+            if d is None or c.applies(d, eng): return c
+        return None
+
+    def get(self, qn):
+        l = self.by.get(qn)
+        return l[0] if l else None
+
+
 class LoopContract:
     def __init__(self, qname, ordinal, invariant, modifies=(), decreases=None, name=None, keep=(), keep_keys=(), keep_at=(), keep_names=()):
         self.keep_names = set(keep_names)     # locals (by name) the loop does not assign although the syntactic scan cannot tell
@@ -786,7 +803,7 @@ def check_function(eng, contract, result):
             r = z3.Int('obj_this'); st.pc.append(r > 0); st.pc.append(eng.root_of(r) > 0)
             this = ObjLV(r, TY.parse(cname))
     saved_safety = eng.safety; eng.safety = set(contract.safety)
-    saved_use = eng.use_contracts; eng.use_contracts = {c.qname: c for c in contract.use}
+    saved_use = eng.use_contracts; eng.use_contracts = UseMap(contract.use)
     saved_depth = eng.max_depth
     if contract.max_depth: eng.max_depth = contract.max_depth
     if contract.unroll: saved_unroll = eng.unroll_limit; eng.unroll_limit = contract.unroll + 1
